@@ -113,6 +113,8 @@ def build(prog, g, root="version", extra_chars="vV.-+"):
             pass
 
     def vhook(node, i, j, w):
+        if node.kind == "verify_map":
+            raise Inconclusive("direct evaluator: verify_map() needs the concrete text")
         R = P.verify_langs.get(id(node))
         if R is None:
             raise Inconclusive("direct evaluator: verify() predicate without a regular language")
